@@ -322,6 +322,25 @@ func runC15(cfg config) {
 		}
 		addRound("RProtoSysProto", true, 0, "Date proto precision "+p.String(), same)
 	}
+	// a date element in a zone other than UTC (the JSON parser's default zone): the calendar day it shows survives
+	for _, zc := range []struct {
+		tz  string
+		vus int64
+	}{{"+05:30", 1582914600000000}, {"-11:00", 1582974000000000}, {"+13:00", 1582887600000000}} { // local midnight of 2020-02-29
+		for _, p := range []dtpb.Date_Precision{dtpb.Date_YEAR, dtpb.Date_MONTH, dtpb.Date_DAY} {
+			pd := &dtpb.Date{ValueUs: zc.vus, Precision: p, Timezone: zc.tz}
+			want := map[dtpb.Date_Precision]string{dtpb.Date_YEAR: "2020", dtpb.Date_MONTH: "2020-02", dtpb.Date_DAY: "2020-02-29"}[p]
+			sv, err := system.DateFromProto(pd)
+			same := false
+			if err == nil {
+				p2 := sv.ToProtoDate()
+				sv2, err2 := system.DateFromProto(p2)
+				lit, err3 := system.ParseDate(want)
+				same = err2 == nil && err3 == nil && p2.Precision == p && strings.TrimPrefix(sv.String(), "@") == want && sv2.String() == sv.String() && sv.Equal(lit) && sv2.Equal(lit)
+			}
+			addRound("RProtoSysProto", true, 0, "Date proto precision "+p.String()+" tz "+zc.tz+" (calendar day)", same)
+		}
+	}
 	for _, p := range []dtpb.DateTime_Precision{dtpb.DateTime_YEAR, dtpb.DateTime_MONTH, dtpb.DateTime_DAY, dtpb.DateTime_SECOND, dtpb.DateTime_MILLISECOND, dtpb.DateTime_MICROSECOND} {
 		for _, tz := range []string{"UTC", "+05:30", "-11:00"} {
 			vus := us
@@ -359,6 +378,20 @@ func runC15(cfg config) {
 		pt := &dtpb.Time{ValueUs: vus, Precision: p}
 		p2 := system.TimeFromProto(pt).ToProtoTime()
 		addRound("RProtoSysProto", p != dtpb.Time_MICROSECOND, 0, "Time proto precision "+p.String(), p2.ValueUs == pt.ValueUs && p2.Precision == pt.Precision)
+	}
+	// a Time literal as an element: value_us is the time of day, within [0, 24h)
+	for _, tl := range []struct {
+		lit string
+		us  int64
+	}{{"10:30:15", 37815000000}, {"00:00:00", 0}, {"23:59:59.999", 86399999000}, {"00:00:00.001", 1000}} {
+		tv, err := system.ParseTime(tl.lit)
+		ok := false
+		if err == nil {
+			pt := tv.ToProtoTime()
+			back := system.TimeFromProto(pt)
+			ok = pt.ValueUs == tl.us && back.Equal(tv)
+		}
+		addRound("RSysProtoSys", true, 0, "Time "+tl.lit+" -> element: value_us within the day, and back", ok)
 	}
 	// ---- (4) FHIR primitive parse/format helpers, and agreement with google/fhir's JSON rendering --------------
 	m, err := jsonformat.NewMarshaller(false, "", "", fhirversion.R4)
